@@ -1,6 +1,6 @@
 """C06 — whole-file summary statistics equal the statistics of the written data."""
 from vlib import CaseT
-from wbprop import WigBedProp
+from wbprop import WigBedProp, byte_level_check
 import bbgen
 
 
@@ -37,6 +37,9 @@ class C06(WigBedProp):
 
     def oracle(self, case, il):
         return bbgen.basic_ok(il) or bbgen.oracle_summary(case, il, case.kind == "bed")
+
+    def extra_checks(self, rep, tier, rng, workdir):
+        byte_level_check(self, rep, workdir)
 
 
 PROP = C06()
